@@ -126,6 +126,16 @@ CHECKS = {
     design_ref="DESIGN.md section 6 (C16)", note=_MEM_NOTE + " Tier 1 as C03/C04. Clone derives, CowBytes and lifetimes are not modelled.",
     technique="Coq proof: results of reuse are the specification of needle and haystack for every prefilter state; iterator run-splitting + differential correspondence on operation histories with buffer scribbling",
  ),
+ "C17": dict(
+    text="Props/C17.v: Spec.load_ok rejects Alloc events, so every result/safety theorem of the development also proves that the model's trace "
+         "contains no Alloc: memchr family and iterators, finder construction + find for every strategy, memmem::find/rfind, find_iter; Shift-Or "
+         "emits exactly one Alloc in its constructor and none while searching. This theorem is weak by nature (the model allocates only where an "
+         "Alloc was written by hand); the property is DECIDED by the correspondence: a counting global allocator measures each API call of the "
+         "real crate and the count must equal the model's number of Alloc events (0; at most 1 for into_owned / shiftor::Finder::new), in the "
+         "default, alloc-only and no-default-features builds.",
+    design_ref="DESIGN.md section 6 (C17)", note=_MEM_NOTE + " The proof part is about the model's events only; the allocation probe is what observes the compiled code.",
+    technique="Coq proof that model traces contain no Alloc event (weak) + allocation-count correspondence with a counting global allocator in three feature configurations",
+ ),
  "C18": dict(
     text="Theorems C18_is_equal / C18_is_prefix / C18_is_suffix / C18_is_equal_raw (coq/Props/C18.v) prove for all byte "
          "lists, lengths and placements that the modelled routines return exactly slice equality / starts_with / ends_with, "
